@@ -165,6 +165,22 @@ func c09R5Graph(c *Ctx, rule string, g *core.Graph, fGM *types.Var) int {
 		if len(account) == 0 {
 			bad = "the loop writes greaterMid but no comparison against it was found"
 		}
+		// the scan visits every element: the loop is left early only by a failing return
+		for _, e := range l.exits() {
+			if e.From == l.Head || !l.Body[e.From] {
+				continue
+			}
+			from := g.Nodes[e.From]
+			if from.Succs[e.Idx].To == g.Panic {
+				continue
+			}
+			if ret, isRet := from.Ast.(*ast.ReturnStmt); isRet {
+				if mf, _ := g.ReturnMayFail(ret, nil); mf {
+					continue
+				}
+			}
+			bad = sprintf("the scan can be left before its last element (at %s): the mids of the remaining elements never raise the counter", c.P.Pos(g.PosOf(e.From)))
+		}
 		key := "CreateOffer|scan:" + c06Canon(g, l.Head, l.Range.X)
 		r.Check(bad == "", rule, key, c.P.Pos(l.Range.Pos()), "every element with a numeric mid raises the counter before a fresh mid is handed out", bad+": a fresh mid handed out later can equal a mid that already appeared in an earlier description")
 	}
